@@ -17,7 +17,10 @@ def monitor(sn, faulty):
 
 
 def tweak(rng, sc):
-    return sc
+    # now and then the worlds of c07.tweak: a partition (in ordinals) beyond spec.replicas with delete slots inside the range and
+    # healthy outdated pods below it — a delete there has none of the reasons
+    from props import c07
+    return c07.tweak(rng, sc)
 
 
 def run(ctx, depth):
